@@ -53,10 +53,22 @@ func (c *constraints) Reserve(p peer.ID, a ma.Multiaddr, expiry time.Time) error
 
 	now := time.Now()
 	c.cleanup(now)
-	// To handle refreshes correctly, remove the existing reservation for the peer.
-	c.cleanupPeer(p)
 
-	if len(c.total) >= c.rc.MaxReservations {
+	// A refresh replaces the peer's own reservation, so only the reservations
+	// of other peers count against the limits. The existing reservation is
+	// removed only once the new one has been accepted: a refused refresh must
+	// leave it counted, because the relay keeps serving it until it expires.
+	others := func(rs []peerWithExpiry) int {
+		n := 0
+		for _, pe := range rs {
+			if pe.Peer != p {
+				n++
+			}
+		}
+		return n
+	}
+
+	if others(c.total) >= c.rc.MaxReservations {
 		return errTooManyReservations
 	}
 
@@ -65,31 +77,26 @@ func (c *constraints) Reserve(p peer.ID, a ma.Multiaddr, expiry time.Time) error
 		return errors.New("no IP address associated with peer")
 	}
 
-	ipReservations := c.ips[ip.String()]
-	if len(ipReservations) >= c.rc.MaxReservationsPerIP {
+	if others(c.ips[ip.String()]) >= c.rc.MaxReservationsPerIP {
 		return errTooManyReservationsForIP
 	}
 
-	var asnReservations []peerWithExpiry
 	var asn uint32
 	if ip.To4() == nil {
 		asn = asnutil.AsnForIPv6(ip)
 		if asn != 0 {
-			asnReservations = c.asns[asn]
-			if len(asnReservations) >= c.rc.MaxReservationsPerASN {
+			if others(c.asns[asn]) >= c.rc.MaxReservationsPerASN {
 				return errTooManyReservationsForASN
 			}
 		}
 	}
 
+	c.cleanupPeer(p)
+
 	c.total = append(c.total, peerWithExpiry{Expiry: expiry, Peer: p})
-
-	ipReservations = append(ipReservations, peerWithExpiry{Expiry: expiry, Peer: p})
-	c.ips[ip.String()] = ipReservations
-
+	c.ips[ip.String()] = append(c.ips[ip.String()], peerWithExpiry{Expiry: expiry, Peer: p})
 	if asn != 0 {
-		asnReservations = append(asnReservations, peerWithExpiry{Expiry: expiry, Peer: p})
-		c.asns[asn] = asnReservations
+		c.asns[asn] = append(c.asns[asn], peerWithExpiry{Expiry: expiry, Peer: p})
 	}
 	return nil
 }
